@@ -398,7 +398,8 @@ Cases(m) ==
       [] m = "PartitionDemand" -> {[model |-> m, params |-> <<>>, inputs |-> <<s, u>>, states |-> <<>>] : s \in SeriesOf(ValsS, TT), u \in SeriesOf(ValsS, TT)}
       [] m \in {"ApplyScalingFactor", "DeliveryRatio"} -> {[model |-> m, params |-> <<f>>, inputs |-> <<s>>, states |-> <<>>] : f \in Scales \cup Fracs, s \in SeriesOf(Vals, TT)}
       [] m = "DepthToRate" -> {[model |-> m, params |-> <<dt, ar>>, inputs |-> <<s>>, states |-> <<>>] :
-                                   dt \in {R(86400), R(3600)}, ar \in {R(0), R(1000), R(250000)}, s \in SeriesOf(Vals, TT)}
+                                   \* (50000 s and 7000 s do not divide the day: the factor is area/DeltaT, not area x steps-per-day/day)
+                                   dt \in {R(86400), R(3600), R(50000), R(7000)}, ar \in {R(0), R(1000), R(250000)}, s \in SeriesOf(Vals, TT)}
       [] m = "ComputeProportion" -> {[model |-> m, params |-> <<f>>, inputs |-> <<s, u>>, states |-> <<>>] : f \in {R(0), R(1)}, s \in SeriesOf(Vals, TT), u \in SeriesOf(Vals, TT)}
       [] m \in {"EmcDwc", "SednetDissolvedNutrientGeneration"} ->
             {[model |-> m, params |-> <<e, d>>, inputs |-> <<s, u>>, states |-> <<>>] : e \in {R(0), R(2), R(50)}, d \in {R(0), R(3)}, s \in SeriesOf(Vals, TT), u \in SeriesOf(Vals, TT)}
@@ -460,6 +461,11 @@ Cases(m) ==
               inputs |-> <<<<q>>, <<yr>>, <<ar>>, <<al>>>>, states |-> <<>>] :
                af \in {Q(1, 2), R(2)}, pf \in {R(0), R(25)}, mp \in {R(1), Q(1, 2)}, lt \in {R(0), R(2)}, pw \in {R(0), R(1), R(2)}, dt \in {R(1), R(4)},
                q \in {R(0), R(3), Q(1, 2)}, yr \in {R(1999), R(2005), R(2015)}, ar \in {R(0), R(8)}, al \in {R(0), R(9)}}
+            \* ... and three timesteps whose years are NOT in order (every timestep stands for itself)
+            \cup {[model |-> m, params |-> <<R(2000), R(2010), R(5), af, R(6), R(25), R(1), R(2), pw, R(50), R(20), R(1)>>,
+              inputs |-> <<<<R(3), q, R(3)>>, <<ys[1], ys[2], ys[3]>>, <<R(8), R(8), R(8)>>, <<R(0), R(0), R(9)>>>>, states |-> <<>>] :
+               af \in {Q(1, 2), R(2)}, pw \in {R(0), R(1)}, q \in {R(3), Q(1, 2)},
+               ys \in {<<R(1999), R(2015), R(2005)>>, <<R(2015), R(2005), R(2015)>>, <<R(2005), R(2015), R(1999)>>}}
       [] m = "SednetParticulateNutrientGeneration" ->
             {[model |-> m, params |-> <<R(100), c1, R(50), R(2), c2, R(3), R(20), dw, cr>>,
               inputs |-> <<<<a>>, <<b>>, <<cc>>, <<d>>, <<sl>>>>, states |-> <<>>] :
